@@ -84,6 +84,9 @@ func (ex *Executor) note(format string, a ...interface{}) {
 }
 
 func (ex *Executor) addObl(st *State, kind, detail string, goal *Term, text string, tags []string) {
+	if st != nil && st.noObl > 0 {
+		return
+	}
 	if goal.IsTrue() {
 		// trivially true after simplification: still counted (discharged by the generator's simplifier)
 		ex.Obls = append(ex.Obls, &Obligation{Name: ex.oblName(st, kind, detail), Kind: kind, Func: ex.unitKey, Props: ex.propsFor(tags),
@@ -746,6 +749,7 @@ func (ex *Executor) load(st *State, pv Val) Val {
 		}
 		v := ex.initialGlobal(st, p.G)
 		st.globals[p.G] = v
+		ex.assumeTableFacts(st, relPkg(p.G.Pkg.Pkg.Path()), p.G.Name(), v)
 		return v
 	case PCell:
 		if isBigIntPtr(types.NewPointer(p.Elem)) {
